@@ -193,10 +193,17 @@ class BodyMixin:
         forms = env['ombott.request.forms'] = self._forms_factory()
 
         body = self.body
+        try:
+            self._collect_multipart(body, post, forms, files)
+        except RequestError as err:
+            # a malformed or oversized form is the client's fault
+            self._raise(err, RequestError)
+        return post
+
+    def _collect_multipart(self, body, post, forms, files):
         markup: MultipartMarkup = body.ombott_markup
         if markup is None:
-            # should never happen since we check content-type
-            # when reading body
+            # multipart content-type without a usable boundary
             raise BodyParsingError()
         elif markup.error is not None:
             raise markup.error
@@ -221,7 +228,6 @@ class BodyMixin:
                 el.append(it)
             else:
                 post[key] = dct[key] = it
-        return post
 
     @cache_in('environ[ ombott.request.forms ]', read_only=True)
     def forms(self):
